@@ -19,6 +19,8 @@ def famOf : String → Option Family
     | ["recurpad", r] => match (r.splitOn ",").map (·.toNat?) with
       | [some a, some p, some k] => some (.recurPad a p k)
       | _ => none
+    | ["exitrec", r] => r.toNat?.map Family.exitRec
+    | ["exitblk", r] => r.toNat?.map Family.exitBlk
     | _ => none
 
 def kindName : Kind → String
